@@ -22,6 +22,7 @@ use crate::path::{Component, Path};
 use crate::str::UnixStr;
 use std::cell::RefCell;
 use std::collections::HashMap;
+use std::collections::VecDeque;
 use std::fmt::Debug;
 use std::rc::Rc;
 
@@ -123,25 +124,35 @@ impl FileSystem {
 
     /// Returns a reference to the existing file at the specified path.
     ///
+    /// Symbolic links in the directory part of the path are followed. A
+    /// symbolic link named by the last component is returned as is, unless the
+    /// path ends with a slash, in which case it is followed as well. Resolution
+    /// fails with `ELOOP` if more than [`SYMLOOP_MAX`](Self::SYMLOOP_MAX) links
+    /// are met.
+    ///
     /// TODO Reject relative path
     pub fn get<P: AsRef<Path>>(&self, path: P) -> Result<Rc<RefCell<Inode>>, Errno> {
         fn main(fs: &FileSystem, path: &Path) -> Result<Rc<RefCell<Inode>>, Errno> {
             // The path is split by hand rather than with `Path::components`
             // because the latter drops `.` components, which can only be
             // resolved in a directory.
+            let bytes = path.as_unix_str().as_bytes();
+            let ends_with_slash = bytes.ends_with(b"/");
+            let mut names: VecDeque<Vec<u8>> = bytes
+                .split(|&b| b == b'/')
+                .filter(|name| !name.is_empty())
+                .map(<[u8]>::to_vec)
+                .collect();
             let mut nodes = vec![Rc::clone(&fs.root)];
-            for name in path.as_unix_str().as_bytes().split(|&b| b == b'/') {
-                if name.is_empty() {
-                    continue;
-                }
-
+            let mut link_count = 0;
+            while let Some(name) = names.pop_front() {
                 let node_ref = nodes.last().unwrap().borrow();
                 let children = match &node_ref.body {
                     FileBody::Directory { files } => files,
                     _ => return Err(Errno::ENOTDIR),
                 };
 
-                match name {
+                match &name[..] {
                     b"." => continue,
                     b".." => {
                         drop(node_ref);
@@ -159,17 +170,45 @@ impl FileSystem {
 
                 let child = Rc::clone(
                     children
-                        .get(UnixStr::from_bytes(name))
+                        .get(UnixStr::from_bytes(&name))
                         .ok_or(Errno::ENOENT)?,
                 );
                 drop(node_ref);
+
+                // A symbolic link is followed if it is not the last component
+                // or the path requires the result to be a directory.
+                if !names.is_empty() || ends_with_slash {
+                    let target = match &child.borrow().body {
+                        FileBody::Symlink { target } => Some(target.clone()),
+                        _ => None,
+                    };
+                    if let Some(target) = target {
+                        link_count += 1;
+                        if link_count > FileSystem::SYMLOOP_MAX {
+                            return Err(Errno::ELOOP);
+                        }
+                        let target = target.as_unix_str().as_bytes();
+                        if target.is_empty() {
+                            return Err(Errno::ENOENT);
+                        }
+                        if target.starts_with(b"/") {
+                            nodes.truncate(1);
+                        }
+                        let target_names = target
+                            .split(|&b| b == b'/')
+                            .filter(|name| !name.is_empty());
+                        for (index, target_name) in target_names.enumerate() {
+                            names.insert(index, target_name.to_vec());
+                        }
+                        continue;
+                    }
+                }
+
                 nodes.push(child);
             }
 
             let node = nodes.pop().unwrap();
-            if path.as_unix_str().as_bytes().ends_with(b"/")
-                && !matches!(&node.borrow().body, FileBody::Directory { .. })
-            {
+            if ends_with_slash && !matches!(&node.borrow().body, FileBody::Directory { .. }) {
                 return Err(Errno::ENOTDIR);
             }
             Ok(node)
@@ -177,6 +216,9 @@ impl FileSystem {
 
         main(self, path.as_ref())
     }
+
+    /// Maximum number of symbolic links followed in resolving a path
+    pub const SYMLOOP_MAX: usize = 8;
 }
 
 /// File on the file system
